@@ -469,6 +469,8 @@ def corpus():
     # a payload of several MiB, then small ones again (anything an encoder keeps between calls must not leak into the next encoding);
     # implementation only - the extracted model needs minutes for 10 MB lines - judged by the oracle (invariant, payload read back, round trip)
     big = bytes((i * 7 + 3) % 256 for i in range(5 * 1024 * 1024 + 17))
+    small_line = mk_line(OFFSET + 2000, std, [("SETPAYLOAD", b"small again"), ("SETCRC", 1)])
+    out.append("PAIR OPSX%s || %s || %s" % (mk_line(OFFSET + 2000, std, [("SETCRC", 1), ("SETPAYLOAD", big)])[3:], small_line, small_line))
     out.append("OPSX" + mk_line(OFFSET + 2000, std, [("SETPAYLOAD", big), ("SETPAYLOAD", b"small again"), ("SETCRC", 1), ("SETPAYLOAD", b"")])[3:])
     out.append("OPSX" + mk_line(OFFSET + 2000, std, [("SETCRC", 2), ("SETPAYLOAD", big[:1048576 + 3]), ("ADD", unk), ("SETPAYLOAD", b"x")])[3:])
     # builder input in arbitrary order, payload first
